@@ -264,7 +264,7 @@ void __uatomic_and(void *addr, unsigned long val, int len)
 	{
 		__asm__ __volatile__(
 		"lock; andb %1, %0"
-			: "=m"(*__hp(1, addr))
+			: "+m"(*__hp(1, addr))
 			: "iq" ((unsigned char)val)
 			: "memory");
 		return;
@@ -273,7 +273,7 @@ void __uatomic_and(void *addr, unsigned long val, int len)
 	{
 		__asm__ __volatile__(
 		"lock; andw %1, %0"
-			: "=m"(*__hp(2, addr))
+			: "+m"(*__hp(2, addr))
 			: "ir" ((unsigned short)val)
 			: "memory");
 		return;
@@ -282,7 +282,7 @@ void __uatomic_and(void *addr, unsigned long val, int len)
 	{
 		__asm__ __volatile__(
 		"lock; andl %1, %0"
-			: "=m"(*__hp(4, addr))
+			: "+m"(*__hp(4, addr))
 			: "ir" ((unsigned int)val)
 			: "memory");
 		return;
@@ -292,7 +292,7 @@ void __uatomic_and(void *addr, unsigned long val, int len)
 	{
 		__asm__ __volatile__(
 		"lock; andq %1, %0"
-			: "=m"(*__hp(8, addr))
+			: "+m"(*__hp(8, addr))
 			: "er" ((unsigned long)val)
 			: "memory");
 		return;
@@ -320,7 +320,7 @@ void __uatomic_or(void *addr, unsigned long val, int len)
 	{
 		__asm__ __volatile__(
 		"lock; orb %1, %0"
-			: "=m"(*__hp(1, addr))
+			: "+m"(*__hp(1, addr))
 			: "iq" ((unsigned char)val)
 			: "memory");
 		return;
@@ -329,7 +329,7 @@ void __uatomic_or(void *addr, unsigned long val, int len)
 	{
 		__asm__ __volatile__(
 		"lock; orw %1, %0"
-			: "=m"(*__hp(2, addr))
+			: "+m"(*__hp(2, addr))
 			: "ir" ((unsigned short)val)
 			: "memory");
 		return;
@@ -338,7 +338,7 @@ void __uatomic_or(void *addr, unsigned long val, int len)
 	{
 		__asm__ __volatile__(
 		"lock; orl %1, %0"
-			: "=m"(*__hp(4, addr))
+			: "+m"(*__hp(4, addr))
 			: "ir" ((unsigned int)val)
 			: "memory");
 		return;
@@ -348,7 +348,7 @@ void __uatomic_or(void *addr, unsigned long val, int len)
 	{
 		__asm__ __volatile__(
 		"lock; orq %1, %0"
-			: "=m"(*__hp(8, addr))
+			: "+m"(*__hp(8, addr))
 			: "er" ((unsigned long)val)
 			: "memory");
 		return;
@@ -376,7 +376,7 @@ void __uatomic_add(void *addr, unsigned long val, int len)
 	{
 		__asm__ __volatile__(
 		"lock; addb %1, %0"
-			: "=m"(*__hp(1, addr))
+			: "+m"(*__hp(1, addr))
 			: "iq" ((unsigned char)val)
 			: "memory");
 		return;
@@ -385,7 +385,7 @@ void __uatomic_add(void *addr, unsigned long val, int len)
 	{
 		__asm__ __volatile__(
 		"lock; addw %1, %0"
-			: "=m"(*__hp(2, addr))
+			: "+m"(*__hp(2, addr))
 			: "ir" ((unsigned short)val)
 			: "memory");
 		return;
@@ -394,7 +394,7 @@ void __uatomic_add(void *addr, unsigned long val, int len)
 	{
 		__asm__ __volatile__(
 		"lock; addl %1, %0"
-			: "=m"(*__hp(4, addr))
+			: "+m"(*__hp(4, addr))
 			: "ir" ((unsigned int)val)
 			: "memory");
 		return;
@@ -404,7 +404,7 @@ void __uatomic_add(void *addr, unsigned long val, int len)
 	{
 		__asm__ __volatile__(
 		"lock; addq %1, %0"
-			: "=m"(*__hp(8, addr))
+			: "+m"(*__hp(8, addr))
 			: "er" ((unsigned long)val)
 			: "memory");
 		return;
@@ -433,7 +433,7 @@ void __uatomic_inc(void *addr, int len)
 	{
 		__asm__ __volatile__(
 		"lock; incb %0"
-			: "=m"(*__hp(1, addr))
+			: "+m"(*__hp(1, addr))
 			:
 			: "memory");
 		return;
@@ -442,7 +442,7 @@ void __uatomic_inc(void *addr, int len)
 	{
 		__asm__ __volatile__(
 		"lock; incw %0"
-			: "=m"(*__hp(2, addr))
+			: "+m"(*__hp(2, addr))
 			:
 			: "memory");
 		return;
@@ -451,7 +451,7 @@ void __uatomic_inc(void *addr, int len)
 	{
 		__asm__ __volatile__(
 		"lock; incl %0"
-			: "=m"(*__hp(4, addr))
+			: "+m"(*__hp(4, addr))
 			:
 			: "memory");
 		return;
@@ -461,7 +461,7 @@ void __uatomic_inc(void *addr, int len)
 	{
 		__asm__ __volatile__(
 		"lock; incq %0"
-			: "=m"(*__hp(8, addr))
+			: "+m"(*__hp(8, addr))
 			:
 			: "memory");
 		return;
@@ -489,7 +489,7 @@ void __uatomic_dec(void *addr, int len)
 	{
 		__asm__ __volatile__(
 		"lock; decb %0"
-			: "=m"(*__hp(1, addr))
+			: "+m"(*__hp(1, addr))
 			:
 			: "memory");
 		return;
@@ -498,7 +498,7 @@ void __uatomic_dec(void *addr, int len)
 	{
 		__asm__ __volatile__(
 		"lock; decw %0"
-			: "=m"(*__hp(2, addr))
+			: "+m"(*__hp(2, addr))
 			:
 			: "memory");
 		return;
@@ -507,7 +507,7 @@ void __uatomic_dec(void *addr, int len)
 	{
 		__asm__ __volatile__(
 		"lock; decl %0"
-			: "=m"(*__hp(4, addr))
+			: "+m"(*__hp(4, addr))
 			:
 			: "memory");
 		return;
@@ -517,7 +517,7 @@ void __uatomic_dec(void *addr, int len)
 	{
 		__asm__ __volatile__(
 		"lock; decq %0"
-			: "=m"(*__hp(8, addr))
+			: "+m"(*__hp(8, addr))
 			:
 			: "memory");
 		return;
